@@ -38,7 +38,7 @@ def run_login_only(config_text, oracles=None):
 
 # =============================================================================== C17
 NAME_OPTS = (None, "a", "job_1", "7")
-OPT_VECTORS = ("none", "est", "flag", "group", "ajn", "aod", "ext", "all")
+OPT_VECTORS = ("none", "est", "est0", "flag", "group", "ajn", "aod", "ext", "all")
 
 
 def name_vectors(n):
@@ -79,6 +79,8 @@ def build_d17(case):
             jkw["name"] = names[i]
         if opt in ("est", "all"):
             jkw["estimated_run_minutes"] = 2  # == walltime below: the boundary must be accepted
+        if opt == "est0":
+            jkw["estimated_run_minutes"] = 0  # a legal value that is falsy
         if opt in ("flag", "all"):
             jkw["cancel_on_blocking_job_failure"] = True
         if opt in ("group", "all"):
@@ -188,7 +190,72 @@ class C17RoundTrip(EnumCheck):
         return len(c[0]) > 1 or c[3] != "none" or c[5] is not None
 
 
-INVALIDITIES = ("estimate-above-walltime-of-its-group", "unknown-blocker", "duplicate-name", "unknown-group", "duplicate-group", "max-nodes-differ",
+@register("c17_reordered")
+class C17Reordered(EnumCheck):
+    """The job list of a dumped configuration in every other listing order (what `shuffle_jobs` / `jade config create
+    --shuffle` / a hand-edited file produce): unnamed jobs keep the name given by their job_id, blockers keep
+    pointing at the same jobs, the configuration is still accepted."""
+
+    def cases(self):
+        out = []
+        for n in (2, 3):
+            for names in name_vectors(n):
+                if not any(x is None for x in names):
+                    continue
+                for bb in S.dags(n):
+                    for style in (("str", "int") if any(bb) else ("str",)):
+                        for perm in itertools.permutations(range(n)):
+                            if list(perm) == list(range(n)):
+                                continue
+                            out.append((names, bb, style, perm))
+        return out
+
+    def begin(self):
+        self.dir = scratch("c17r")
+
+    def evaluate(self, case):
+        from jade.jobs.job_configuration_factory import create_config_from_file
+        from jade.jobs.job_submitter import JobSubmitter
+
+        names, bb, style, perm = case
+        cfg, eff = build_d17((names, bb, style, "none", 1, None))
+        f1 = os.path.join(self.dir, "r1.json")
+        f2 = os.path.join(self.dir, "r2.json")
+        cfg.dump(f1)
+        with open(f1) as f:
+            data = json.load(f)
+        data["jobs"] = [data["jobs"][i] for i in perm]
+        with open(f1, "w") as f:
+            json.dump(data, f, indent=1)
+        res = []
+        try:
+            back = create_config_from_file(f1)
+        except Exception as e:  # noqa
+            return [V("reordered-rejected", f"configuration with jobs listed in order {[eff[i] for i in perm]} could not be loaded: {type(e).__name__}: {e}")]
+        want_names = [eff[i] for i in perm]
+        got = back.list_jobs()
+        if [j.name for j in got] != want_names:
+            res.append(V("reordered-names", f"jobs listed as {want_names} load as {[j.name for j in got]}"))
+        want_bb = [sorted(eff[j] for j in bb[i]) for i in perm]
+        if [sorted(str(x) for x in j.get_blocking_jobs()) for j in got] != want_bb:
+            res.append(V("reordered-blocked-by", f"blocked_by after load {[sorted(j.get_blocking_jobs()) for j in got]} != {want_bb} (listing {want_names})"))
+        back.dump(f2)
+        again = create_config_from_file(f2)
+        if [j.name for j in again.list_jobs()] != [j.name for j in got]:
+            res.append(V("reordered-second-load", f"second dump+load renames jobs: {[j.name for j in got]} -> {[j.name for j in again.list_jobs()]}"))
+        try:
+            out = os.path.join(self.dir, "out")
+            shutil.rmtree(out, ignore_errors=True)
+            JobSubmitter.create(back, output=out)
+        except Exception as e:  # noqa
+            res.append(V("valid-rejected", f"valid configuration (jobs listed as {want_names}) rejected: {type(e).__name__}: {e}"))
+        return res
+
+    def kind(self, c):
+        return f"n={len(c[0])}"
+
+
+INVALIDITIES = ("estimate-above-walltime-of-its-group", "unknown-blocker", "unknown-int-blocker-in-id-range", "duplicate-name", "unknown-group", "duplicate-group", "max-nodes-differ",
                 "max-nodes-second-unset", "poll-interval-first-differs",
                 "poll-interval-differ", "hpc-type-differ", "estimate-above-walltime", "missing-estimate-size0",
                 "none", "estimate-equals-walltime")
@@ -200,6 +267,11 @@ def inject(data, inv):
     groups = data["submission_groups"]
     if inv == "unknown-blocker":
         jobs[0]["blocked_by"] = list(jobs[0].get("blocked_by", [])) + ["zzz"]
+    elif inv == "unknown-int-blocker-in-id-range":
+        # an integer that is some job's generated id but no job's NAME (that job has an explicit name)
+        if len(jobs) < 2 or not jobs[1].get("name") or any((j.get("name") or str(j["job_id"])) == str(jobs[1]["job_id"]) for j in jobs):
+            return False
+        jobs[0]["blocked_by"] = list(jobs[0].get("blocked_by", [])) + [jobs[1]["job_id"]]
     elif inv == "duplicate-name":
         if len(jobs) < 2:
             return False
